@@ -14,8 +14,10 @@ from vsim.runner import InvalidScenario
 
 NAME = 'E-NNPS'
 CRASHY = True
-RUN_TIMEOUT = 90
-NO_SHRINK = {'cls', 'dim'}
+RUN_TIMEOUT = 25
+# slowness is not stated by C01/C17: a run that exceeds the limit is counted (crashes_or_hangs), not reported
+HANG_IS_VIOLATION = False
+NO_SHRINK = {'cls', 'dim', 'knobs', 'radius_scale', 'qmodes'}
 
 CLS = ['ll', 'box', 'dbox', 'sh', 'esh', 'ci', 'sfc', 'esfc', 'strat_hash', 'strat_sfc', 'tree', 'comp_tree']
 REORDER = {'ll', 'box', 'ci', 'sfc', 'esfc', 'strat_sfc', 'tree', 'comp_tree'}
@@ -98,7 +100,7 @@ def gen(t, prop, tier):
     if prop == 'C17':
         cls = t.choice(sorted(REORDER))
     else:
-        cls = t.choice(CLS)
+        cls = t.wchoice([(c, 1 if c in ('sfc', 'esfc', 'strat_sfc') else 4) for c in CLS])
     knobs = {}
     if cls in ('esh', 'strat_hash'):
         knobs['H'] = t.choice([1, 2, 3])
@@ -143,6 +145,8 @@ def gen(t, prop, tier):
     hmin = min(r[3] for r in allp)
     lim = {1: 5000, 2: 300, 3: 60}[dim]
     ext = max(max(r[k] for r in allp) - min(r[k] for r in allp) for k in range(dim))
+    if max(max(r[k] for r in allp) - min(r[k] for r in allp) for k in range(3)) < 1e-12:
+        ext = 1.0
     rs_max = 3.0
     if ext / (1.0 * hmin) > lim * 0.9:
         f = ext / (1.0 * hmin) / (lim * 0.9)
@@ -175,13 +179,33 @@ def gen(t, prop, tier):
     qmodes = [dict(mode=t.wchoice([('cached', 5), ('nocache', 2), ('find_all', 3)]),
                    ctx=t.wchoice([('explicit', 3), ('implicit', 2)]), order_seed=t.int(0, 1 << 20))
               for _ in range(len(ops) + 1)]
-    return dict(dim=dim, cls=cls, knobs=knobs, cache=int(t.bool(0.6)), sort_gids=int(t.bool(0.4)), fixed_h=fixed_h,
+    return dict(dim=dim, cls=cls, knobs=knobs, cache=int(t.bool(0.6)) if cls != 'dbox' else 0, sort_gids=int(t.bool(0.4)), fixed_h=fixed_h,
                 radius_scale=t.choice([2.0, 2.0, 3.0, 1.0, 2.5]), nthreads=t.choice([1, 1, 2, 3, 4, 8]),
                 valid_gids=int(t.bool(0.5)), scale=scale, hbase=hbase, arrays=arrays, ops=ops, qmodes=qmodes)
 
 
+def needs_isolation(sc):
+    # Every run gets its own forked child: (a) classes with recorded memory-safety findings must
+    # not leak heap corruption into later runs of the same worker, and (b) a worker that has
+    # executed an OpenMP region cannot fork usable children (libgomp is not fork-safe), so the
+    # worker itself never executes a scenario.
+    return True
+
+
 def sig_of(sc):
-    return dict(cls=sc.get('cls'), dim=sc.get('dim'), narrays=len(sc.get('arrays', [])), knobs=sc.get('knobs', {}))
+    d = dict(cls=sc.get('cls'), dim=sc.get('dim'), narrays=len(sc.get('arrays', [])), knobs=sc.get('knobs', {}))
+    try:
+        dim = int(sc.get('dim', 3))
+        pts = [r for a in sc.get('arrays', []) for r in a.get('pts', [])]
+        for a in sc.get('ops', []):
+            if isinstance(a, dict) and a.get('op') == 'add':
+                pts += [r for r in a.get('pts', []) if len(r) >= 4]
+        ext = [max(r[k] for r in pts) - min(r[k] for r in pts) for k in range(dim)] if pts else [0.0]
+        # a flat direction inside the problem's dimensions (all particles share that coordinate)
+        d['flat_axis'] = bool(pts) and any(e < 1e-12 for e in ext)
+    except Exception:
+        d['flat_axis'] = None
+    return d
 
 
 # ----------------------------------------------------------------------------
@@ -341,6 +365,10 @@ def execute(sc, prop):
         assert dim in (1, 2, 3) and cls in CLS and isinstance(specs, list) and 1 <= len(specs) <= 3
     except Exception as e:
         raise InvalidScenario(repr(e))
+    kn = sc.get('knobs') or {}
+    if (int(kn.get('H', 1)) < 1 or int(kn.get('num_levels', 1)) < 1 or int(kn.get('leaf_max_particles', 1)) < 1
+            or int(kn.get('table_size', 1)) < 1 or not (0.5 <= rs <= 4.0)):
+        raise InvalidScenario('knobs')
     if prop == 'C17' and cls not in REORDER:
         raise InvalidScenario('class does not re-order')
     w = W()
@@ -365,9 +393,14 @@ def execute(sc, prop):
     # bound the grid
     allp = [r for rows in rowsets for r in rows]
     hmin = min(r[3] for r in allp)
+    exts = [max(r[k] for r in allp) - min(r[k] for r in allp) for k in range(3)]
+    if all(e < 1e-12 for e in exts):
+        exts = [1.0] * 3        # the structures fall back to a unit box
+        degenerate = True
+    else:
+        degenerate = False
     for k in range(dim):
-        ext = max(r[k] for r in allp) - min(r[k] for r in allp)
-        if ext / (rs * hmin) > {1: 5000, 2: 300, 3: 60}[dim]:
+        if exts[k] * 1.02 / (rs * hmin) > {1: 5000, 2: 300, 3: 60}[dim]:
             raise InvalidScenario('grid too large')
     if dim < 3 and any(r[2] != 0.0 for r in allp) or dim < 2 and any(r[1] != 0.0 for r in allp):
         raise InvalidScenario('coordinates beyond dim')
@@ -377,6 +410,8 @@ def execute(sc, prop):
     w.particles = [_build_array(w, 'a%d' % i, rows, dim, valid_gids, with_ident) for i, rows in enumerate(rowsets)]
     if any(len(r) == 0 for r in rowsets):
         probe('empty_array_present')
+    if degenerate:
+        probe('degenerate_extent')
     if any(abs(r[0]) >= 1e3 for r in allp):
         probe('far_from_origin')
     if max(r[3] for r in allp) / hmin >= 10:
@@ -402,7 +437,7 @@ def execute(sc, prop):
     qmodes = sc.get('qmodes') or [{}]
     nonempty = [0]
     kinds = []
-    use_cache = [bool(sc.get('cache'))]
+    use_cache = [bool(sc.get('cache')) and cls != 'dbox']
     first_ctx = [True]
 
     def query_round(qi, what):
@@ -418,6 +453,12 @@ def execute(sc, prop):
             nd = dst.get_number_of_particles()
             ns = src.get_number_of_particles()
             orc = _oracle(src, dst, rs)
+            if s != d and ns and nd:
+                cs = rs * max(float(_arr(src, 'h').max()), float(_arr(dst, 'h').max()))
+                def cells(pa):
+                    return set(zip(*[np.floor(np.asarray(_arr(pa, c)) / cs).astype(np.int64).tolist() for c in 'xyz']))
+                if cells(dst) - cells(src):
+                    probe('cell_occupied_in_one_array_only')
             if ctx == 'explicit' or first_ctx[0] or mode == 'nocache' or not use_cache[0]:
                 nnps.set_context(s, d)
                 first_ctx[0] = False
@@ -463,6 +504,20 @@ def execute(sc, prop):
                     violate('extra-neighbours', '%s: query(src=%d,dst=%d,i=%d) [%s] returned non-neighbours %r'
                             % (what, s, d, i, mode, sorted(extra)[:6]), **sg)
                     return
+
+    def grid_ok():
+        lim = {1: 5000, 2: 300, 3: 60}[dim]
+        hm = min([float(_arr(p, 'h').min()) for p in w.particles if p.get_number_of_particles()] or [1.0])
+        for kk, c in enumerate('xyz'[:dim]):
+            vals = [(_arr(p, c).min(), _arr(p, c).max()) for p in w.particles if p.get_number_of_particles()]
+            if not vals:
+                return False
+            e = max(v[1] for v in vals) - min(v[0] for v in vals)
+            if e < 1e-12:
+                e = 1.0
+            if e * 1.02 / (rs * hm) > lim:
+                return False
+        return True
 
     query_round(0, 'initial update')
     rounds = 1
@@ -537,6 +592,8 @@ def execute(sc, prop):
             pa.remove_particles(idx)
             probe('removed_particles')
         elif k == 'toggle_cache':
+            if cls == 'dbox':
+                continue        # DictBoxSortNNPS documents that it cannot use the cache
             use_cache[0] = not use_cache[0]
             nnps.set_use_cache(use_cache[0])
             probe('cache_toggled')
@@ -570,8 +627,17 @@ def execute(sc, prop):
         else:
             continue
         kinds.append(k)
-        nnps.update_domain()
-        nnps.update()
+        if not grid_ok():
+            probe('stopped_grid_beyond_bound')
+            break
+        try:
+            nnps.update_domain()
+            nnps.update()
+        except RuntimeError as e:
+            if 'cells' in str(e).lower():
+                probe('refused_too_many_cells')
+                break
+            raise
         if k == 'reorder':
             probe('reorder_then_query')
             _check_reorder_state(w, ai, _records(pa), 'update after re-ordering')
